@@ -71,3 +71,67 @@ Example C03_ex :
   /\ validate TTimeInterval (Lst [Num 2; Num 1]) = Err EValidation.
 Proof. vm_compute. repeat split. Qed.
 Print Assumptions C03_ex.
+
+(* ---- the validators as READ FROM THE SOURCE (Gen/Source.v is regenerated from
+   soundevent/data/geometries.py on every run; the @field_validator("coordinates") methods of each
+   class, composed in source order = pydantic's run order).  For every coordinate structure of the
+   shape pydantic hands to the validators, the generated chain accepts exactly when the model
+   [validate] accepts the JSON tree, and returns the coordinates of the model's normalised geometry:
+   so C03_accept_iff, C03_accepted_valid, C03_normalise_shape and C03_revalidate above are theorems
+   about the validators as they are written now.  [src_rel enc r m] reads: both reject, or both accept
+   and [enc] of the returned coordinates is the dump of the model's geometry. ---- *)
+From SE Require Gen.Source Gen.SrcValidate.
+Import SrcValidate.
+
+Theorem C03_src_TimeStamp : forall v, src_rel Num (Source.TimeStamp_validate v) (validate TTimeStamp (Num v)).
+Proof. exact src_TimeStamp. Qed.
+Print Assumptions C03_src_TimeStamp.
+
+Theorem C03_src_TimeInterval : forall v, src_rel t1 (Source.TimeInterval_validate v) (validate TTimeInterval (t1 v)).
+Proof. exact src_TimeInterval. Qed.
+Print Assumptions C03_src_TimeInterval.
+
+Theorem C03_src_Point : forall v, src_rel t1 (Source.Point_validate v) (validate TPoint (t1 v)).
+Proof. exact src_Point. Qed.
+Print Assumptions C03_src_Point.
+
+Theorem C03_src_LineString : forall v, src_rel t2 (Source.LineString_validate v) (validate TLineString (t2 v)).
+Proof. exact src_LineString. Qed.
+Print Assumptions C03_src_LineString.
+
+Theorem C03_src_Polygon : forall v, src_rel t3 (Source.Polygon_validate v) (validate TPolygon (t3 v)).
+Proof. exact src_Polygon. Qed.
+Print Assumptions C03_src_Polygon.
+
+Theorem C03_src_BoundingBox : forall v, src_rel t1 (Source.BoundingBox_validate v) (validate TBBox (t1 v)).
+Proof. exact src_BoundingBox. Qed.
+Print Assumptions C03_src_BoundingBox.
+
+Theorem C03_src_MultiPoint : forall v, src_rel t2 (Source.MultiPoint_validate v) (validate TMultiPoint (t2 v)).
+Proof. exact src_MultiPoint. Qed.
+Print Assumptions C03_src_MultiPoint.
+
+Theorem C03_src_MultiLineString : forall v,
+  src_rel t3 (Source.MultiLineString_validate v) (validate TMultiLineString (t3 v)).
+Proof. exact src_MultiLineString. Qed.
+Print Assumptions C03_src_MultiLineString.
+
+Theorem C03_src_MultiPolygon : forall v,
+  src_rel t4 (Source.MultiPolygon_validate v) (validate TMultiPolygon (t4 v)).
+Proof. exact src_MultiPolygon. Qed.
+Print Assumptions C03_src_MultiPolygon.
+
+(* what acceptance by the generated validators means, in one statement *)
+Theorem C03_src_accept_valid : forall (A : Type) (enc : A -> tree) (r : res A) T t v',
+  src_rel enc r (validate T t) -> r = Ok v' ->
+  exists g, validate T t = Ok g /\ enc v' = dump g /\ validb g = true /\ type_of g = T.
+Proof. exact @src_accept_valid. Qed.
+Print Assumptions C03_src_accept_valid.
+
+Example C03_src_ex :
+  Source.BoundingBox_validate [3; 200; 1; 100] = Ok [1; 100; 3; 200]
+  /\ Source.LineString_validate [[2; 10]; [1; 20]] = Ok [[1; 20]; [2; 10]]
+  /\ Source.Polygon_validate [[[0; 0]; [1; 0]; [1; 5000001]]] = Err EValue
+  /\ Source.MultiLineString_validate [[[1; 0]; [1; 5]]] = Err EValue.
+Proof. vm_compute. repeat split. Qed.
+Print Assumptions C03_src_ex.
